@@ -352,3 +352,18 @@ const struct cbor_callbacks vh_recording_callbacks = {
     .array_start = cb_arr, .indef_array_start = cb_iarr, .map_start = cb_map, .indef_map_start = cb_imap,
     .tag = cb_tag, .float2 = cb_f2, .float4 = cb_f4, .float8 = cb_f8,
     .undefined = cb_undef, .null = cb_null, .boolean = cb_bool, .indef_break = cb_break};
+
+unsigned char* vh_exact(size_t n, unsigned align, unsigned char** blk) {
+  /* blocks of the sanitizer / C library allocator start 16-aligned; total size is chosen so that start + total is the block end */
+  size_t pad = align & 15;
+  size_t total = pad + n;
+  if (total == 0) total = 1;
+  unsigned char* b = malloc(total);
+  if (!b) abort();
+  *blk = b;
+  return b + (total - n);
+}
+unsigned char* vh_exact_rot(size_t n, unsigned char** blk) {
+  static unsigned rot;
+  return vh_exact(n, rot++ * 7u, blk); /* 7 is coprime to 16: all alignments, consecutive calls far apart */
+}
